@@ -178,6 +178,7 @@ struct Engine
     struct XM
     {
         bool present = false, moved = false;
+        bool unspec = false;  // contents unspecified after a failed assignment: may only be destroyed or assigned to
         Elem e;
         int arena = 0;
     };
@@ -222,11 +223,11 @@ struct Engine
                 break;
             case O_XCA:
             case O_XMA:
-                if (xm[last.a[1]].present) xm[last.a[1]].moved = true;
-                if (last.k == O_XMA && xm[last.a[0]].present) xm[last.a[0]].moved = true;
+                if (xm[last.a[1]].present) xm[last.a[1]].unspec = true;
+                if (last.k == O_XMA && xm[last.a[0]].present) xm[last.a[0]].unspec = true;
                 break;
             case O_XAR:
-                if (xm[last.a[0]].present) xm[last.a[0]].moved = true;
+                if (xm[last.a[0]].present) xm[last.a[0]].unspec = true;
                 break;
             default:
                 break;
@@ -266,10 +267,10 @@ struct Engine
         {
             for (int e = 0; e < 3; ++e)
             {
-                if (!xm[e].present || !xm[e].moved || (last.k != O_XCA && last.k != O_XMA && last.k != O_XAR)) continue;
+                if (!xm[e].present || !xm[e].unspec || (last.k != O_XCA && last.k != O_XMA && last.k != O_XAR)) continue;
                 for (int f = 0; f < 3; ++f)
                 {
-                    if (f == e || !xm[f].present || xm[f].moved) continue;
+                    if (f == e || !xm[f].present || xm[f].moved || xm[f].unspec) continue;
                     begin_op();
                     LIB(*x[e] = std::as_const(*x[f]));
                     const int keep = xm[e].arena, id = xm[e].e.id;
@@ -1674,7 +1675,7 @@ struct Engine
     {
         std::ostringstream ob;
         std::set<uintptr_t> held;
-        bool any_moved = false;
+        bool any_moved = false, any_unspec = false;
         for (int t = 0; t < 2; ++t)
         {
             if (!m[t].present) continue;
@@ -1708,6 +1709,13 @@ struct Engine
                 any_moved = true;
                 continue;
             }
+            if (xm[e].unspec)
+            {
+                // an element has no query that tells whether it holds anything: it is not read, and the objects it may
+                // or may not still hold are accounted for once it has been assigned to or destroyed
+                any_unspec = true;
+                continue;
+            }
             inspect_elem(e, held, ob);
         }
         // ---- C06: live objects are exactly the logically held ones
@@ -1718,6 +1726,7 @@ struct Engine
             {
                 if (held.count(kv.first)) continue;
                 if (any_moved && kv.second.moved) continue;  // objects left in a moved-from container are unspecified
+                if (any_unspec) continue;
                 const Block* b = find_block(kv.first);
                 report("C06", "registry", b ? "stray-live-object" : "stray-live-object-external",
                        "a live object (value %d) is not held by any container (%s)", kv.second.val,
@@ -1781,6 +1790,8 @@ struct Engine
             return x.v;
         else if constexpr (std::is_same_v<T, Asg> || std::is_same_v<T, Cpy>)
             return x.val;
+        else if constexpr (std::is_same_v<T, Str>)
+            return static_cast<long>(x.size()) + (x.empty() ? 0 : x[0]);
         else
             return static_cast<long>(x);
     }
